@@ -97,10 +97,86 @@ pub fn build(tn: u32, k: u32, avc: bool) -> Vec<u8> {
     file
 }
 
+fn bx(t: &[u8; 4], payload: &[u8]) -> Vec<u8> {
+    let mut v = ((payload.len() + 8) as u32).to_be_bytes().to_vec();
+    v.extend_from_slice(t);
+    v.extend_from_slice(payload);
+    v
+}
+fn ser<T: for<'a> WriteBox<&'a mut Vec<u8>>>(b: &T) -> Vec<u8> {
+    let mut v = Vec::new();
+    b.write_box(&mut v).unwrap();
+    v
+}
+
+/// esds variant: T AAC tracks whose ES descriptor declares a length that reaches to the end of the
+/// file; the bytes after the esds box are then walked as descriptors (any bytes are: tag, length,
+/// skip), two bytes per step over a region of zeros.  The containers are assembled here, the leaf
+/// boxes are written by the library, the esds box by hand (the library always writes minimal lengths).
+pub fn build_esds(tn: u32, region: usize) -> Vec<u8> {
+    let ftyp = ser(&FtypBox { major_brand: FourCC::from(*b"isom"), minor_version: 0, compatible_brands: vec![] });
+    let mut mvhd = MvhdBox::default();
+    mvhd.timescale = 1000;
+    mvhd.next_track_id = tn + 1;
+    let trak_of = |id: u32, es_len: u32| -> Vec<u8> {
+        let mut tkhd = TkhdBox::default();
+        tkhd.track_id = id;
+        let mut mdhd = MdhdBox::default();
+        mdhd.timescale = 1000;
+        let mut hdlr = HdlrBox::default();
+        hdlr.handler_type = FourCC::from(*b"soun");
+        // ES_Descr (tag 3, four length bytes), ES_ID, flags, DecoderConfig (tag 4, 15 bytes: AAC LC 44.1 kHz
+        // stereo with its 2-byte DecoderSpecificInfo), SLConfig (tag 6)
+        let mut es = vec![3u8, 0x80 | ((es_len >> 21) & 0x7F) as u8, 0x80 | ((es_len >> 14) & 0x7F) as u8, 0x80 | ((es_len >> 7) & 0x7F) as u8, (es_len & 0x7F) as u8];
+        es.extend_from_slice(&[0, 1, 0]);
+        es.extend_from_slice(&[4, 17, 0x40, 0x15, 0, 0, 0, 0, 0, 0, 0, 0, 0, 0, 0, 5, 2, 0x12, 0x10]);
+        es.extend_from_slice(&[6, 1, 2]);
+        let mut esds = vec![0u8, 0, 0, 0];
+        esds.extend_from_slice(&es);
+        let mut mp4a = vec![0u8, 0, 0, 0, 0, 0, 0, 1, 0, 0, 0, 0, 0, 0, 0, 0, 0, 2, 0, 16, 0, 0, 0, 0, 0xAC, 0x44, 0, 0];
+        mp4a.extend_from_slice(&bx(b"esds", &esds));
+        let mut stsd = vec![0u8, 0, 0, 0, 0, 0, 0, 1];
+        stsd.extend_from_slice(&bx(b"mp4a", &mp4a));
+        let mut stbl = bx(b"stsd", &stsd);
+        stbl.extend_from_slice(&ser(&SttsBox::default()));
+        stbl.extend_from_slice(&ser(&StscBox::default()));
+        stbl.extend_from_slice(&ser(&StszBox::default()));
+        stbl.extend_from_slice(&ser(&StcoBox::default()));
+        let mut minf = ser(&SmhdBox::default());
+        minf.extend_from_slice(&ser(&DinfBox::default()));
+        minf.extend_from_slice(&bx(b"stbl", &stbl));
+        let mut mdia = ser(&mdhd);
+        mdia.extend_from_slice(&ser(&hdlr));
+        mdia.extend_from_slice(&bx(b"minf", &minf));
+        let mut trak = ser(&tkhd);
+        trak.extend_from_slice(&bx(b"mdia", &mdia));
+        bx(b"trak", &trak)
+    };
+    let assemble = |lens: &[u32]| -> Vec<u8> {
+        let mut moov = ser(&mvhd);
+        for i in 0..tn {
+            moov.extend_from_slice(&trak_of(i + 1, lens.get(i as usize).copied().unwrap_or(30)));
+        }
+        let mut f = ftyp.clone();
+        f.extend_from_slice(&bx(b"moov", &moov));
+        f
+    };
+    let first = assemble(&[]);
+    let total = first.len() + 8 + region;
+    // the ES descriptor's payload starts 5 bytes after its tag, i.e. 4 (type) + 4 (version/flags) + 5 after "esds"
+    let idx: Vec<usize> = (0..first.len().saturating_sub(4)).filter(|&i| &first[i..i + 4] == b"esds").collect();
+    let lens: Vec<u32> = idx.iter().map(|&i| ((total - 4) - (i + 13)) as u32).collect();
+    let mut file = assemble(&lens);
+    file.extend_from_slice(&((8 + region) as u32).to_be_bytes());
+    file.extend_from_slice(b"free");
+    file.extend(std::iter::repeat(0u8).take(region));
+    file
+}
+
 /// one `reset` + one `block` event (the input is not logged: it is a function of (t, k))
-pub fn run(tn: u32, k: u32, avc: bool, id: u64, out: &mut Out) {
-    let file = build(tn, k, avc);
-    out.ev(json!({"e":"reset","id":format!("amplify-{}-{}-{}", if avc { "avc" } else { "hevc" }, tn, k),"kind":"amplification","len":file.len(),"mode":"open"}));
+pub fn run(tn: u32, k: u32, kind: &str, id: u64, out: &mut Out) {
+    let file = if kind == "esds" { build_esds(tn, k as usize * 1024) } else { build(tn, k, kind == "avc") };
+    out.ev(json!({"e":"reset","id":format!("amplify-{}-{}-{}", kind, tn, k),"kind":"amplification","len":file.len(),"mode":"open"}));
     let o = robust::execute(&file, None);
     let st = match o.status { "ok" => 0, "err" => 1, _ => 2 } + if o.budget_hit { 4 } else { 0 };
     out.ev(json!({"e":"block","base":id,"mode":"open","n":[o.n.min(robust::SAT)],"ops":[o.ops.min(robust::SAT)],"peak":[o.peak.min(robust::SAT)],
